@@ -127,11 +127,19 @@ def run(tier):
         n = 300 if tier_ == "quick" else 3000
         r = corr.correspond(REL, n, sd, rep, check_model=False, label="relational (implementation only, sampled)")
         rep.notes["relational_sampled"] = r["evaluations"]
-    return corr.standard_run("C02", tier, [UNIT], 300, 4000, c01.TRUSTED, RULE, extra=extra)
+        # which curve a component's battery integrates along is decided in components.py
+        c01.components_glue(rep, tier_, sd)
+    import c03
+    return corr.standard_run("C02", tier, [UNIT, c03.UNIT], {UNIT.name: 300, "curve": 300}, {UNIT.name: 4000, "curve": 3000}, c01.TRUSTED, RULE, extra=extra)
 
 
 def replay(payload):
     inp = payload["input"]
+    if inp.get("unit") == "curve":
+        import c03
+        return c03.replay(payload)
+    if inp.get("unit") == "glue":
+        return c01.replay(payload)
     unit = REL if inp.get("unit") == "battery_rel" else UNIT
     case = inp["case"]
     out = unit.run_impl(case)
